@@ -13,6 +13,43 @@ CLAIMED = {
     },
 }
 
+COMMON_NOTE = ("Trusted: Coq kernel; translator (probe.rs + translate.py); Python generators, renderers (program -> Rust text / Coq term), "
+               "canonicalisation and oracles; syn. Modelled not verified: serde/serde_derive/serde-json-wasm/serde-cw-value decoding rules, "
+               "convert_case, rustc. ")
+
+CLAIMED.update({
+    "C01": {
+        "text": "Coq theorems for every program, every method whose name is in the normal form of the property, every argument list and every codec that round-trips (Section variables): the encoded message is the one-key object named by the method with one entry per argument; decode(encode) = id; accepted names = wire names of the annotated methods of the kind. Rests on a proved casing theorem through a faithful model of convert_case's boundary splitter and serde's rename rule. Tie: L1 expansion facts of generated programs vs the Coq expansion model, L2 compiled corpus (real to_json_string/from_json) vs the Coq semantics, plus model-independent oracles.",
+        "note": COMMON_NOTE + "Identifiers are ASCII, non-raw. JSON is compared as trees, not text.",
+        "technique": "Coq proof (induction over the casing splitter, codec as Section variable) + L1/L2 differential correspondence",
+        "design_ref": "DESIGN.md section 5 / C01",
+    },
+    "C02": {
+        "text": "Coq theorems for all handler bodies and contexts (Section variables): dispatching the message of method m logs exactly one call, of m, with the context unchanged and the sent values in parameter order (fields bound by name), and returns that handler's outcome; no call outside the enum; struct messages likewise; ctx tuple per kind from the regenerated table. Tie: L1 dispatch arms vs model and signature; L2 echo handlers through entry points / dispatch / multitest Contract impl with random env, info, storage, Ok and Err outcomes.",
+        "note": COMMON_NOTE + "Error conversion (`map_err(Into::into)`) and `to_json_binary` are observed at L1 (post-processing tag of each arm) and L2 (error text, decoded query payload), not proved.",
+        "technique": "Coq proof (dispatch semantics over arbitrary handlers) + L1/L2 differential correspondence with echo handlers",
+        "design_ref": "DESIGN.md section 5 / C02",
+    },
+    "C03": {
+        "text": "Coq theorems for every contract with any number of interfaces, every JSON document repeating no key: the contract-level decoder accepts iff exactly one part accepts and yields that part's value; every other document gives the documented error class (total function); encoding is the part's; the entry point only runs handlers of the owning part. The published tables are proved to be the sorted serde wire names. Documents repeating a key are a known finding with a proved witness. Tie: L2 from_json of well-formed and 15 kinds of single-fault documents into the wrapper and every part, L1 wrapper facts.",
+        "note": COMMON_NOTE + "Hypothesis dec_collapse (argument decoding is insensitive to member order for documents repeating no key) is a Section hypothesis validated by L2. Disjointness of the parts' names is the conclusion of C05.",
+        "technique": "Coq proof (iff over all documents, BTreeMap buffering modelled) + L2 differential correspondence on malformed-document streams",
+        "design_ref": "DESIGN.md section 5 / C03",
+    },
+    "C04": {
+        "text": "Coq theorem with no hypothesis on program, tables or document: whatever JSON tree reaches the entry point of kind k, every handler in the call log is a method annotated k (contract or declared interface); kind names/accessors/message types are injective in the kind (regenerated tables). Tie: L2 every exec/query/sudo message of the corpus sent to the entry points and multitest Contract methods of the other kinds; L1 which tables and message types each wrapper uses.",
+        "note": COMMON_NOTE + "instantiate/migrate/reply entry points take struct messages / Reply and are covered by the C06 forwarding theorems and L2 struct calls.",
+        "technique": "Coq proof (call-log containment for arbitrary documents) + L2 cross-kind differential runs",
+        "design_ref": "DESIGN.md section 5 / C04",
+    },
+    "C05": {
+        "text": "Coq theorems about a step-for-step model of sylvia::utils::assert_no_intersection (index cursors, out-of-range and unreachable!() as a distinct Stuck outcome, explicit fuel): for any number of strictly sorted lists of any lengths it panics iff two lists share a string, finishes otherwise, and is never stuck; the published table of each part is proved sorted and equal to the set of serde wire names. Tie: the real function run on all tuples of <=3 (thorough <=4) sorted lists over a 4-string alphabet plus random sorted/unsorted tuples vs the model; L1/L2 tables vs serialised keys; compiled colliding / non-colliding contract pairs.",
+        "note": COMMON_NOTE + "rustc's const evaluation of the check is trusted (a panic in the const block is a compile error); Vec::sort is assumed to sort by str::cmp.",
+        "technique": "Coq proof (invariant over the k-way merge) + exhaustive small-space and random L3 correspondence + L2 tables",
+        "design_ref": "DESIGN.md section 5 / C05",
+    },
+})
+
 NOT_YET = {}
 
 
